@@ -518,15 +518,21 @@ def _rfp_samples():
             inside = rnd.uniform([0, 0], [nx, ny], size=(4, 2))
             pts = [inside, np.asarray([[f, ny / 2.0]]), np.asarray([[nx / 3.0, -f]])]
             xy = np.concatenate(pts)
-            yield dict(xy=xy, shape=shape, padding=padding, align=align)
+            yield dict(xy=xy, shape=shape, padding=padding, align=align, k=0)
             bad = xy.copy()
             bad[0, 0] = np.nan
             bad[1, 1] = np.inf
-            yield dict(xy=bad, shape=shape, padding=padding, align=align)
-        yield dict(xy=np.asarray([[np.nan, 1.0], [2.0, np.inf]]), shape=(10, 10), padding=0, align=None)
-        yield dict(xy=np.zeros((0, 2)), shape=(10, 10), padding=0, align=None)
+            yield dict(xy=bad, shape=shape, padding=padding, align=align, k=0)
+        yield dict(xy=np.asarray([[np.nan, 1.0], [2.0, np.inf]]), shape=(10, 10), padding=0, align=None, k=0)
+        yield dict(xy=np.zeros((0, 2)), shape=(10, 10), padding=0, align=None, k=0)
 
     return "3 image shapes x paddings {0,1,5} x alignments {None,4,16} x outliers at 0, 1e5, +-3e9 (beyond int32), 1e12, -1e15, 1e300; with and without NaN/inf rows; all-non-finite and empty point sets", gen()
+
+
+def _rfp_post_native(xy, shape, padding, align, result):
+    if hasattr(xy, "point"):
+        return True  # symbolic run: the clauses above decide it
+    return _rfp_post(xy, shape, padding, align, result)
 
 
 def _rfp_post(xy, shape, padding, align, result):
@@ -553,11 +559,57 @@ def _rfp_post(xy, shape, padding, align, result):
     return ok
 
 
+def _pts_shape(min_len=0):
+    from pyvc.npmodel import SymPts
+
+    return Custom(lambda name: SymPts.fresh(name, min_len=min_len), "N x 2 float array, any N (all rows finite)")
+
+
+def _npts(xy):
+    return xy.shape[0]
+
+
+def _pt(xy, k):
+    return xy.point(k) if hasattr(xy, "point") else (float(xy[k, 0]), float(xy[k, 1]))
+
+
+def _rfp_shape(shape):
+    return (shape[0], shape[1])
+
+
+def _rfp_contains(xy, shape, padding, result, k):
+    ny, nx = _rfp_shape(shape)
+    ys, xs = result
+    if not hasattr(xy, "point") and not 0 <= k < len(xy):
+        return True
+    x, y = _pt(xy, k)
+    return Implies(
+        And(0 <= k, k < _npts(xy), 0 <= x, x < nx, 0 <= y, y < ny),
+        And(xs.start <= Max(0, x - padding), Min(nx, x + padding) <= xs.stop, ys.start <= Max(0, y - padding), Min(ny, y + padding) <= ys.stop),
+    )
+
+
+def _rfp_aligned(shape, align, result):
+    if align is None:
+        return True
+    ny, nx = _rfp_shape(shape)
+    return And(*[And(Or(sl.start % align == 0, sl.start == n), Or(sl.stop % align == 0, sl.stop == n)) for sl, n in zip(result, (ny, nx))])
+
+
 contract(
     f"{ROI}:roi_from_points",
     ["C17", "C03"],
-    ensures=[("contains every finite point that falls inside the image, honours padding and alignment, ignores non-finite points, stays within the image -- however large the outlying coordinates are", _rfp_post)],
-    verify=False,
-    trusted_reason="numpy min/max/floor/ceil/astype/clip on Nx2 arrays: outside the VC generator's reach; BOUNDED native check of the contract",
+    inputs=[
+        dict(xy=_pts_shape(0), shape=Tup(Int(ge=1, le=2**30), Int(ge=1, le=2**30)), padding=Int(ge=0, le=2**20), align=OneOf(None, Int(ge=1, le=2**20)), k=Int()),
+    ],
+    ensures=[
+        ("stays within the image", lambda shape, result: And(0 <= result[0].start, result[0].stop <= shape[0], 0 <= result[1].start, result[1].stop <= shape[1], is_int_obj(result[0].start), is_int_obj(result[1].stop))),
+        ("contains every (finite) point that falls inside the image, together with its padding clamped to the image -- however far away the other points are", lambda xy, shape, padding, result, k: _rfp_contains(xy, shape, padding, result, k)),
+        ("edges are aligned as requested (or sit on the image border)", lambda shape, align, result: _rfp_aligned(shape, align, result)),
+        ("no points: the empty region", lambda xy, result: Implies(_npts(xy) == 0, And(result[0].start == 0, result[0].stop == 0, result[1].start == 0, result[1].stop == 0))),
+        ("bounded-part: non-finite rows are ignored, huge coordinates do not wrap (native samples)", _rfp_post_native),
+    ],
+    unstub=["odc.geo.math:align_down", "odc.geo.math:align_up"],
     native_samples=_rfp_samples,
+    note="proved over numpy taken as its documented meaning on an N x 2 array of reals of ANY length (min/max along axis 0, floor/ceil/clip/astype elementwise; the int32 casts and every later int32 operation carry a no-overflow OBLIGATION); rows with NaN/inf and float rounding are covered by the bounded native samples only",
 )
